@@ -773,7 +773,14 @@ func (z *Decimal) FMA(x, y, u *Decimal) *Decimal {
 	}
 
 	if u.form == zero {
-		return z.Mul(x, y)
+		uneg := u.neg // u may be z
+		z.Mul(x, y)
+		if z.form == zero && z.acc == Exact && z.neg != uneg {
+			// exact zero product + zero of the opposite sign:
+			// IEEE 754 sign rule for an exactly zero sum
+			z.neg = z.mode == ToNegativeInf
+		}
+		return z
 	}
 	// 0 < |u| <= Inf
 
